@@ -36,18 +36,18 @@ theorem AMap.get_set {α : Type} (m : AMap α) (k k' : Nat) (v : α) :
 
 /-- `s'` has the same block/node indexes as `s` -/
 def Fr (s s' : St) : Prop :=
-  s'.nodesByBlock = s.nodesByBlock ∧ s'.blocksByNode = s.blocksByNode ∧ s'.emptyBlocks = s.emptyBlocks
+  s'.nodesByBlock = s.nodesByBlock ∧ s'.blocksByNode = s.blocksByNode ∧ s'.emptyBlocks = s.emptyBlocks ∧ s'.seen = s.seen
 
-theorem Fr.refl (s : St) : Fr s s := ⟨rfl, rfl, rfl⟩
+theorem Fr.refl (s : St) : Fr s s := ⟨rfl, rfl, rfl, rfl⟩
 theorem Fr.trans {a b c : St} (h1 : Fr a b) (h2 : Fr b c) : Fr a c :=
-  ⟨h2.1.trans h1.1, h2.2.1.trans h1.2.1, h2.2.2.trans h1.2.2⟩
+  ⟨h2.1.trans h1.1, h2.2.1.trans h1.2.1, h2.2.2.1.trans h1.2.2.1, h2.2.2.2.trans h1.2.2.2⟩
 
 theorem fr_markDirty (s : St) (n : Nat) : Fr s (markDirty s n) := by
-  unfold markDirty; split <;> exact ⟨rfl, rfl, rfl⟩
-theorem fr_markClean (s : St) (n : Nat) : Fr s (markClean s n) := ⟨rfl, rfl, rfl⟩
+  unfold markDirty; split <;> exact ⟨rfl, rfl, rfl, rfl⟩
+theorem fr_markClean (s : St) (n : Nat) : Fr s (markClean s n) := ⟨rfl, rfl, rfl, rfl⟩
 theorem fr_releaseAlloc (s : St) (a : Alloc) : Fr s (releaseAlloc s a) :=
   Fr.trans (b := { s with allocs := s.allocs.filter (fun x => x.id != a.id), leaks := s.leaks.filter (· != a.id) })
-    ⟨rfl, rfl, rfl⟩ (fr_markDirty _ _)
+    ⟨rfl, rfl, rfl, rfl⟩ (fr_markDirty _ _)
 
 theorem fr_foldl {α : Type} (f : St → α → St) (hf : ∀ s x, Fr s (f s x)) (l : List α) (s : St) : Fr s (l.foldl f s) := by
   induction l generalizing s with
@@ -66,9 +66,9 @@ theorem fr_ite_fst {α : Type} {c : Prop} [Decidable c] {s : St} {a b : St × α
 theorem fr_upsert (s : St) (b : Nat) (e : Entry) (h : Nat) : Fr s (upsert s b e h) := by
   simp only [upsert]
   split
-  · exact fr_ite ⟨rfl, rfl, rfl⟩ (Fr.refl s)
+  · exact fr_ite ⟨rfl, rfl, rfl, rfl⟩ (Fr.refl s)
   · exact Fr.trans (b := { s with allocs := s.allocs ++ [{ block := b, ord := e.ord, handle := h, kind := e.kind, node := e.node, pod := e.pod, seq := e.seq }] })
-      ⟨rfl, rfl, rfl⟩ (fr_markDirty _ _)
+      ⟨rfl, rfl, rfl, rfl⟩ (fr_markDirty _ _)
 
 theorem fr_upsertAll (s : St) (b : Nat) (es : List Entry) : Fr s (upsertAll s b es) := by
   induction es generalizing s with
@@ -81,7 +81,7 @@ theorem fr_upsertAll (s : St) (b : Nat) (es : List Entry) : Fr s (upsertAll s b 
 
 theorem fr_applyVerdict (s : St) (v : Verdict) : Fr s (applyVerdict s v) := by
   unfold applyVerdict
-  split <;> exact ⟨rfl, rfl, rfl⟩
+  split <;> exact ⟨rfl, rfl, rfl, rfl⟩
 
 theorem fr_checkNode (s : St) (n : Nat) : Fr s (checkNode s n).1 := by
   simp only [checkNode]
@@ -98,7 +98,7 @@ theorem fr_checkNodes (s : St) (ns : List Nat) : Fr s (checkNodes s ns).1 := by
   | cons n ns ih => exact Fr.trans (fr_checkNode s n) (ih _)
 
 theorem fr_checkAllocations (s : St) : Fr s (checkAllocations s).1 :=
-  Fr.trans (b := { s with fullSync := false }) ⟨rfl, rfl, rfl⟩ (fr_checkNodes _ _)
+  Fr.trans (b := { s with fullSync := false }) ⟨rfl, rfl, rfl, rfl⟩ (fr_checkNodes _ _)
 
 theorem fr_gcSelect (s : St) (ids : List Id) : Fr s (gcSelect s ids).1 := by
   induction ids generalizing s with
@@ -109,7 +109,7 @@ theorem fr_gcSelect (s : St) (ids : List Id) : Fr s (gcSelect s ids).1 := by
     · exact ih s
     · refine fr_ite_fst ?_ (fr_ite_fst (ih s) (ih s))
       refine Fr.trans ?_ (ih _)
-      exact ⟨rfl, rfl, rfl⟩
+      exact ⟨rfl, rfl, rfl, rfl⟩
 
 theorem fr_gc (s : St) : Fr s (garbageCollectKnownLeaks s).1 := by
   unfold garbageCollectKnownLeaks
@@ -132,7 +132,7 @@ structure IdxF (nbb : AMap Nat) (bbn : AMap (List Nat)) (em : AMap Nat) : Prop w
 def Idx (s : St) : Prop := IdxF s.nodesByBlock s.blocksByNode s.emptyBlocks
 
 theorem Idx.of_fr {s s' : St} (h : Idx s) (f : Fr s s') : Idx s' := by
-  unfold Idx at *; rw [f.1, f.2.1, f.2.2]; exact h
+  unfold Idx at *; rw [f.1, f.2.1, f.2.2.1]; exact h
 
 theorem mem_sins (l : List Nat) (x y : Nat) : y ∈ sins l x ↔ y = x ∨ y ∈ l := by
   simp only [sins, List.contains_iff_mem]
@@ -328,7 +328,7 @@ theorem idx_onBlockUpdated {s : St} (h : Idx s) (b : Nat) (aff : Option Nat) (es
   unfold onBlockUpdated
   simp only
   refine Idx.of_fr (s := emptyStage (upsertAll (affinityStage s b aff) b es) b es.isEmpty aff) ?_
-    (Fr.trans (fr_releaseAll _ _) ⟨rfl, rfl, rfl⟩)
+    (Fr.trans (fr_releaseAll _ _) ⟨rfl, rfl, rfl, rfl⟩)
   have f2 := fr_upsertAll (affinityStage s b aff) b es
   generalize upsertAll (affinityStage s b aff) b es = s2 at *
   cases aff with
@@ -341,15 +341,15 @@ theorem idx_onBlockUpdated {s : St} (h : Idx s) (b : Nat) (aff : Option Nat) (es
     by_cases he : es.isEmpty = true
     · simp only [he, if_true] at h1 ⊢
       show IdxF s2.nodesByBlock s2.blocksByNode (s2.emptyBlocks.set b n)
-      rw [f2.1, f2.2.1, f2.2.2, e1.1, e1.2.1, e1.2.2]; exact h1
+      rw [f2.1, f2.2.1, f2.2.2.1, e1.1, e1.2.1, e1.2.2]; exact h1
     · simp only [he] at h1 ⊢
       show IdxF s2.nodesByBlock s2.blocksByNode (s2.emptyBlocks.del b)
-      rw [f2.1, f2.2.1, f2.2.2, e1.1, e1.2.1, e1.2.2]; exact h1
+      rw [f2.1, f2.2.1, f2.2.2.1, e1.1, e1.2.1, e1.2.2]; exact h1
   | none =>
     have h1 := idxF_remove h b
     unfold emptyStage
     show IdxF s2.nodesByBlock s2.blocksByNode (s2.emptyBlocks.del b)
-    rw [f2.1, f2.2.1, f2.2.2]
+    rw [f2.1, f2.2.1, f2.2.2.1]
     unfold affinityStage
     cases hg : s.nodesByBlock.get b with
     | some n' => simp only [hg] at h1 ⊢; exact h1
@@ -362,5 +362,136 @@ theorem idx_onBlockUpdated {s : St} (h : Idx s) (b : Nat) (aff : Option Nat) (es
         by_cases hxb : x = b
         · simp [hxb] at this
         · simpa [hxb] using this⟩
+
+theorem idx_onBlockOther {s : St} (h : Idx s) (b : Nat) (es : List Entry) : Idx (onBlockOther s b es) := by
+  unfold onBlockOther
+  simp only
+  refine Idx.of_fr (s := emptyStage (upsertAll s b es) b es.isEmpty none) ?_ (Fr.trans (fr_releaseAll _ _) ⟨rfl, rfl, rfl, rfl⟩)
+  have f2 := fr_upsertAll s b es
+  generalize upsertAll s b es = s2 at *
+  unfold emptyStage
+  show IdxF s2.nodesByBlock s2.blocksByNode (s2.emptyBlocks.del b)
+  rw [f2.1, f2.2.1, f2.2.2.1]
+  exact ⟨h.mem, h.nodup, fun x n hx => by
+    rw [AMap.get_del] at hx
+    by_cases hxb : x = b
+    · simp [hxb] at hx
+    · simp only [hxb, if_false] at hx; exact h.empty x n hx⟩
+
+/-! ### `garbageCollectKnownLeaks` relative to its INPUT state -/
+
+/-- the allocations after some leaks were resurrected: those with an id in `R` are reset -/
+def mv (R : List Id) (x : Alloc) : Alloc := if R.contains x.id then x.markValid else x
+
+theorem markValid_id (x : Alloc) : x.markValid.id = x.id := rfl
+theorem markValid_handle (x : Alloc) : x.markValid.handle = x.handle := rfl
+theorem markValid_idem (x : Alloc) : x.markValid.markValid = x.markValid := rfl
+theorem markValid_confirmed (x : Alloc) : x.markValid.confirmed = false := rfl
+
+theorem mv_id (R : List Id) (x : Alloc) : (mv R x).id = x.id := by unfold mv; split <;> rfl
+theorem mv_handle (R : List Id) (x : Alloc) : (mv R x).handle = x.handle := by unfold mv; split <;> rfl
+
+theorem mv_cons (R : List Id) (id : Id) (x : Alloc) :
+    (if (mv R x).id == id then (mv R x).markValid else mv R x) = mv (id :: R) x := by
+  rw [mv_id]
+  unfold mv
+  by_cases h1 : x.id = id
+  · have : (x.id == id) = true := by simpa using h1
+    simp only [this, if_true, List.contains_cons, Bool.true_or]
+    split <;> rfl
+  · have : (x.id == id) = false := by simpa using h1
+    simp only [this, Bool.false_eq_true, if_false, List.contains_cons, Bool.false_or]
+
+/-- every allocation `gcSelect` selects is an allocation of the INPUT state (`s0`, before any resurrection of
+this pass), fails the final re-validation, is a confirmed leak, and every allocation of the input state
+sharing its handle is a confirmed leak. -/
+theorem gcSelect_input (s0 : St) (R : List Id) (st : St) (ids : List Id) (henv : st.env = s0.env)
+    (hall : st.allocs = s0.allocs.map (mv R)) :
+    ∀ a ∈ (gcSelect st ids).2, a ∈ s0.allocs ∧ isValid s0.env a a.knode.isNone = false ∧ a.confirmed = true ∧
+      ∀ c ∈ s0.allocs, c.handle = a.handle → c.confirmed = true := by
+  induction ids generalizing st R with
+  | nil => intro a ha; simp [gcSelect] at ha
+  | cons id ids ih =>
+    intro a ha
+    simp only [gcSelect] at ha
+    cases hf : st.allocs.find? (fun x => x.id == id) with
+    | none => simp only [hf] at ha; exact ih R st henv hall a ha
+    | some a0 =>
+      simp only [hf] at ha
+      by_cases hv : isValid st.env a0 a0.knode.isNone = true
+      · simp only [hv, if_true] at ha
+        refine ih (id :: R) { st with leaks := st.leaks.filter (· != id), allocs := st.allocs.map (fun x => if x.id == id then x.markValid else x) } henv ?_ a ha
+        show st.allocs.map (fun x => if x.id == id then x.markValid else x) = s0.allocs.map (mv (id :: R))
+        rw [hall, List.map_map]
+        apply List.map_congr_left
+        intro x _
+        exact mv_cons R id x
+      · simp only [hv] at ha
+        by_cases hh : handleConfirmed st a0.handle = true
+        · simp only [hh, Bool.not_true, Bool.false_eq_true, if_false] at ha
+          rcases List.mem_cons.1 ha with rfl | ha
+          · have hm : a ∈ st.allocs := List.mem_of_find?_eq_some hf
+            have hallc : ∀ b ∈ st.allocs, b.handle = a.handle → b.confirmed = true := by
+              intro b hb hbh
+              simp only [handleConfirmed, Bool.and_eq_true, List.all_eq_true, List.mem_filter, beq_iff_eq, and_imp] at hh
+              exact hh.2 b hb hbh
+            -- a is an unmodified allocation of the input state
+            rw [hall, List.mem_map] at hm
+            obtain ⟨x, hx, hxa⟩ := hm
+            have hconf : a.confirmed = true := hallc a (List.mem_of_find?_eq_some hf) rfl
+            have hxeq : x = a := by
+              unfold mv at hxa
+              by_cases hr : R.contains x.id = true
+              · simp only [hr, if_true] at hxa
+                rw [← hxa] at hconf; cases hconf
+              · simp only [hr] at hxa; exact hxa
+            subst hxeq
+            refine ⟨hx, by rw [← henv]; simpa using hv, hconf, fun c hc hch => ?_⟩
+            have hmc : mv R c ∈ st.allocs := by rw [hall]; exact List.mem_map.2 ⟨c, hc, rfl⟩
+            have := hallc (mv R c) hmc (by rw [mv_handle]; exact hch)
+            unfold mv at this
+            by_cases hr : R.contains c.id = true
+            · simp only [hr, if_true] at this; cases this
+            · simp only [hr] at this; exact this
+          · exact ih R st henv hall a ha
+        · simp only [hh, Bool.not_false, if_true] at ha
+          exact ih R st henv hall a ha
+
+theorem mv_nil (x : Alloc) : mv [] x = x := by simp [mv]
+
+/-! ### the states in which block affinities are released -/
+
+/-- GHOST trace of `releaseUnusedLoop`: the state AT THE MOMENT of each `ReleaseBlockAffinity`, with the block and node -/
+def releaseTrace : St → List (Nat × Nat) → List (St × Nat × Nat)
+  | _, [] => []
+  | s, (b, node) :: rest =>
+    if (s.emptyBlocks.get b).isNone then releaseTrace s rest
+    else if ((s.blocksByNode.get node).getD []).length ≤ 1 then releaseTrace s rest
+    else if s.cnodes.get node == some none then releaseTrace { s with tracker := s.tracker.del b } rest
+    else
+      let r := markEmpty s b
+      if !r.2 then releaseTrace r.1 rest
+      else if !r.1.allBlocks.contains b then releaseTrace r.1 rest
+      else (r.1, b, node) :: releaseTrace (forgetBlock r.1 b) rest
+
+/-- the calls of `releaseUnusedLoop` are exactly the entries of its trace, in order -/
+theorem loop_calls_eq_trace (s : St) (l : List (Nat × Nat)) :
+    (releaseUnusedLoop s l).2 = (releaseTrace s l).map (fun t => Call.releaseBlockAffinity t.2.1 t.2.2) := by
+  induction l generalizing s with
+  | nil => rfl
+  | cons bn rest ih =>
+    obtain ⟨b, node⟩ := bn
+    simp only [releaseUnusedLoop, releaseTrace]
+    split
+    · exact ih _
+    · split
+      · exact ih _
+      · split
+        · exact ih _
+        · split
+          · exact ih _
+          · split
+            · exact ih _
+            · simp only [List.map_cons, ih]
 
 end CalicoVerif.C23
